@@ -94,3 +94,30 @@ def register(R):
         ],
         native=False,
     )
+    # ---- name resolution: the entry of the top map (which push_theme's contract makes "most recent theme that defines
+    # it, else inherited"), else the name parsed as a definition
+    R.ufun("parsed_style", "Style")
+    R.contract("rich.style", "Style.link", serves=["C20"], inline=True)
+    R.contract(
+        "rich.style", "Style.parse", serves=["C20"], bv=True,
+        params={"style_definition": "ostr"}, returns="Style", pure=True,
+        raises={"StyleSyntaxError": "*"},
+        ensures=["result == parsed_style(style_definition)", "wf_style(result)"],
+        trusted="Style.parse: tokenising a definition string is outside the encoder; it is represented by an uninterpreted "
+                "function of the definition (deterministic, no other input) that yields a well-formed Style or raises StyleSyntaxError; "
+                "its behaviour is what vf/rtc/props/c06.py checks (bounded)",
+    )
+    R.contract(
+        "rich.console", "Console.get_style", serves=["C20"], bv=True,
+        params={"self": "ConsoleT", "name": "ostr", "default": "Optional[ostr]"}, returns="Style",
+        requires=["ri_stack(self._theme_stack)",
+                  "implies(self._theme_stack.get.get(name) is not None, wf_style(self._theme_stack.get.get(name)))",
+                  "implies(default is not None and self._theme_stack.get.get(default) is not None, wf_style(self._theme_stack.get.get(default)))"],
+        raises={"MissingStyle": "*"},
+        ensures=[
+            "implies(self._theme_stack.get.get(name) is not None, style_eq(result, self._theme_stack.get.get(name)))",
+            "implies(self._theme_stack.get.get(name) is None and default is None, style_eq(result, parsed_style(name)))",
+        ],
+        native=False,
+        notes="string names only (a Style argument is returned as is by the first two lines); the fallback to `default` is covered only by 'may raise MissingStyle'",
+    )
